@@ -120,11 +120,12 @@ let show_obs te (o : obs) =
       Buffer.add_string b (Printf.sprintf " %d:%d:%d:%d" (int_of_nat pid) (int_of_nat cl) (int_of_nat gr) (if inc then 1 else 0)))
       o.o_order;
     Buffer.add_string b " ; RMAP";
-    List.iter (fun ((pid, d), u) ->
-      if d <> [] || u <> [] then begin
+    List.iter (fun (((pid, d), u), bp) ->
+      if d <> [] || u <> [] || bp <> [] then begin
         Buffer.add_string b (Printf.sprintf " %d" (int_of_nat pid));
         List.iter (fun (x, y) -> Buffer.add_string b (Printf.sprintf ":d%d>%d" (int_of_nat x) (int_of_nat y))) d;
-        List.iter (fun (x, y) -> Buffer.add_string b (Printf.sprintf ":u%d>%d" (int_of_nat x) (int_of_nat y))) u
+        List.iter (fun (x, y) -> Buffer.add_string b (Printf.sprintf ":u%d>%d" (int_of_nat x) (int_of_nat y))) u;
+        List.iter (fun (x, y) -> Buffer.add_string b (Printf.sprintf ":b%d>%d" (int_of_nat x) (int_of_nat y))) bp
       end) o.o_rmaps;
     Buffer.add_string b " ; RES";
     List.iter (fun r -> Buffer.add_string b (match r with
@@ -143,10 +144,27 @@ let show_obs te (o : obs) =
     Buffer.contents b
 
 (* ---------- dispatch ---------- *)
+let split_on_sep s =   (* split on " ## " *)
+  let rec go acc cur i =
+    if i >= String.length s then List.rev (Buffer.contents cur :: acc)
+    else if i + 3 < String.length s && String.sub s i 4 = " ## " then begin
+      let piece = Buffer.contents cur in Buffer.clear cur; go (piece :: acc) cur (i + 4) end
+    else begin Buffer.add_char cur s.[i]; go acc cur (i + 1) end in
+  go [] (Buffer.create 256) 0
+
+let model_k kline =
+  match split_ws kline with
+  | "K" :: rest -> let (te, c) = parse_chain rest in show_obs te (model_run c)
+  | _ -> "UNKNOWN-CASE"
+
 let model_line line =
   match split_ws line with
   | "E" :: rest -> show_edits_obs (edits_obs (parse_edits rest))
   | "K" :: rest -> let (te, c) = parse_chain rest in show_obs te (model_run c)
+  | "PAIR" :: _ ->
+    (match split_on_sep line with
+     | [_; a; b] -> model_k a ^ " ## " ^ model_k b
+     | _ -> "UNKNOWN-CASE")
   | _ -> "UNKNOWN-CASE"
 
 let verdict b why = if b then "PASS" else "FAIL " ^ why
@@ -183,7 +201,7 @@ let projection prop secs =
              @ List.filter (starts_with 'J') log @ List.filter (starts_with 'x') res
   | "C05" -> status @ order @ List.map (before '(') log
   | "C07" -> if has_class secs ["1"; "2"] then status @ log @ res else status
-  | "C03" -> status @ order @ List.sort_uniq compare (List.filter_map (fun t ->
+  | "C03" | "C03strict" -> status @ order @ List.sort_uniq compare (List.filter_map (fun t ->
                if starts_with 'C' t || starts_with 'E' t then Some (before '(' t) else None) log)
   | "C04" -> status @ List.map (fun t -> if t = "P" then "P" else "-") res
   | "C06" -> status @ order @ List.filter (starts_with 'C') (List.map (before '(') log) @ List.filter (starts_with 'i') res
@@ -198,6 +216,23 @@ let first_diff a b =
     | [], y :: _ -> Printf.sprintf "item %d: implementation lacks %s" i y in
   go 0 a b
 
+(* the implementation's plan (ORDER + RMAP) as a list of oprov *)
+let parse_plan secs =
+  let rm = List.map (fun tok -> match String.split_on_char ':' tok with
+      | pid :: es -> (int_of_string pid, es) | [] -> (0, [])) (sec "RMAP" secs) in
+  let pairs c es = List.filter_map (fun e ->
+      if starts_with c e then
+        (match String.split_on_char '>' (String.sub e 1 (String.length e - 1)) with
+         | [a; b] -> Some (n (int_of_string a), n (int_of_string b)) | _ -> None)
+      else None) es in
+  List.map (fun tok -> match String.split_on_char ':' tok with
+      | [pid; cl; gr; inc] ->
+        let pid = int_of_string pid in
+        let es = try List.assoc pid rm with Not_found -> [] in
+        { op_pid = n pid; op_class = n (int_of_string cl); op_group = n (int_of_string gr); op_inc = (inc = "1");
+          op_down = pairs 'd' es; op_up = pairs 'u' es; op_bypass = pairs 'b' es }
+      | _ -> failwith "bad ORDER token") (sec "ORDER" secs)
+
 let monitor_chain prop case_toks impl =
   let (te, c) = parse_chain case_toks in
   let model = strip_wf (show_obs te (model_run c)) in
@@ -206,7 +241,54 @@ let monitor_chain prop case_toks impl =
   else
     let pi = projection prop impl_secs and pm = projection prop model_secs in
     (* a Bind error class is informational: err matches err *)
-    if pi = pm then "PASS" else "FAIL " ^ prop ^ " projection differs at " ^ first_diff pi pm
+    if pi <> pm then "FAIL " ^ prop ^ " projection differs at " ^ first_diff pi pm
+    else if sec "BIND" impl_secs <> [] && List.hd (sec "BIND" impl_secs) = "ok" then begin
+      (* independent plan-level monitors, evaluated on what the implementation decided *)
+      match prop with
+      | "C03" -> verdict (mon_C03_plan c (parse_plan model_secs) (parse_plan impl_secs))
+                   "a Required provider is excluded, or an included provider is neither Required/Desired/auto-desired/clustered nor has anything it produces actually received"
+      | "C03strict" -> verdict (mon_C03_plan_strict c (parse_plan impl_secs))
+                   "an included provider is neither Required/Desired/auto-desired/clustered nor has anything it produces actually received"
+      | "C15" -> verdict (mon_C15_plan c (parse_plan impl_secs))
+                   "a returned type is received by nobody above (and not ConsumptionOptional), or a wrapper overrides an un-received return from below without AllowReturnShadowing"
+      | _ -> "PASS"
+    end else "PASS"
+
+let user_included secs =
+  List.sort compare (List.filter_map (fun t -> match String.split_on_char ':' t with
+    | [pid; _; _; "1"] when int_of_string pid < 90 -> Some (int_of_string pid) | _ -> None) (sec "ORDER" secs))
+
+let monitor_pair prop case obs =
+  match split_on_sep case, split_on_sep obs with
+  | [hdr; ka; _kb], [oa; ob] ->
+    if not (starts_with 'B' oa && starts_with 'B' ob) then "FAIL implementation did not return an observation: " ^ obs else
+    let sa = split_sections oa and sb = split_sections ob in
+    let ok secs = (match sec "BIND" secs with "ok" :: _ -> true | _ -> false) in
+    (match split_ws hdr with
+     | ["PAIR"; "desired"; pid] when prop = "C14" ->
+       if not (ok sa) then "PASS" else
+       let inc = List.exists (fun t -> match String.split_on_char ':' t with
+           | [p; _; _; "1"] -> p = pid | _ -> false) (sec "ORDER" sa) in
+       if inc <> ok sb then
+         Printf.sprintf "FAIL Desired provider %s is %s but the chain with it Required %s" pid
+           (if inc then "included" else "excluded") (if ok sb then "binds" else "does not bind")
+       else if inc && (sec "ORDER" sa <> sec "ORDER" sb || sec "RES" sa <> sec "RES" sb || sec "LOG" sa <> sec "LOG" sb)
+       then "FAIL the chain with the provider Desired and the chain with it Required behave differently"
+       else "PASS"
+     | ["PAIR"; "prune"; _] when prop = "C16" || prop = "C16strict" ->
+       if not (ok sa) then "PASS" else
+       (* known finding D6: claimed where the faithful model's plan is justified *)
+       let (_, c) = (match split_ws ka with "K" :: rest -> parse_chain rest | _ -> failwith "bad K") in
+       let shun = List.exists (fun d -> d.d_shun) c.bc_provs
+                  || List.exists (fun t -> match String.split_on_char ':' t with
+                                   | p :: _ -> p = "93" || p = "94" | [] -> false) (sec "ORDER" sa) in
+       if shun && prop = "C16" then "PASS (D6 region: a Shun'd provider, or nject's own Shun'd Unused provider, is present)" else
+       if not (ok sb) then "FAIL the chain no longer binds once its excluded providers are deleted"
+       else if user_included sa <> user_included sb then "FAIL deleting the excluded providers changes which providers are included"
+       else if sec "RES" sa <> sec "RES" sb || sec "LOG" sa <> sec "LOG" sb then "FAIL deleting the excluded providers changes the behaviour"
+       else "PASS"
+     | _ -> "PASS (no pair monitor)")
+  | _ -> "FAIL malformed pair"
 
 let monitor_line prop line =
   match String.split_on_char '\t' line with
@@ -217,6 +299,7 @@ let monitor_line prop line =
         | None -> "FAIL implementation did not return: " ^ obs
         | Some o -> verdict (mon_C18 (parse_edits rest) o) "execution order is not the edited list (or an invalid directive was accepted / a valid one rejected)")
      | _, "K" :: rest -> monitor_chain prop rest obs
+     | _, "PAIR" :: _ -> monitor_pair prop case obs
      | _ -> "PASS (no monitor for this stream)")
   | _ -> "FAIL malformed monitor input"
 
